@@ -53,7 +53,7 @@ Definition show_hout (o : hout) : pstr :=
 (* the library's machine (no value-level memo) on oracle tables *)
 Definition show_hrun (tc td : list (pstr * cres)) (ti : list (pstr * option xv)) (tf : list (pstr * cres))
            (ts : list (pstr * option xv)) (h : list hop) : pstr :=
-  join (S ";") (map show_hout (hrun_out (conv0_of tc) (dumpv_of td) (iso_of ti) (fromts_of tf) (strp_of ts) mk_none hinit h)).
+  join (S ";") (map show_hout (hrun_out false (conv0_of tc) (dumpv_of td) (iso_of ti) (fromts_of tf) (strp_of ts) mk_none hinit h)).
 
 (* Python's == / hash on a list of values, as a 0/1 matrix (validated against the interpreter on every run) *)
 Definition show_pyeq (vs : list xv) : pstr :=
@@ -70,4 +70,4 @@ Fixpoint first_diff (n : nat) (got want : list pstr) : pstr :=
   end.
 Definition show_hcmp (tc td : list (pstr * cres)) (ti : list (pstr * option xv)) (tf : list (pstr * cres))
            (ts : list (pstr * option xv)) (h : list hop) (want : list pstr) : pstr :=
-  first_diff 0 (map show_hout (hrun_out (conv0_of tc) (dumpv_of td) (iso_of ti) (fromts_of tf) (strp_of ts) mk_none hinit h)) want.
+  first_diff 0 (map show_hout (hrun_out false (conv0_of tc) (dumpv_of td) (iso_of ti) (fromts_of tf) (strp_of ts) mk_none hinit h)) want.
